@@ -9,6 +9,7 @@
 #include "common.h"
 #include "enums.h"
 #include "reg_parser.h"
+#include "instr_parser.h"
 #ifndef LEAFLEN
 #define LEAFLEN 12
 #endif
@@ -57,6 +58,22 @@ void harness(void) {
 #elif defined(T_IMMTOK)
   ASSUME(len >= 1 && s[0] != ' ');
   __CPROVER_file_local_tokenizer_c_imm_tok(&ins, s);
+#elif defined(T_INSTRKEY)
+  /* the mnemonic lookup on an arbitrary token: the filter guarantees a first
+   * character in 'A'..'z' that is not an upper-case letter (it lower-cases) */
+  ASSUME(len >= 1 && len <= 12);
+  ASSUME(s[0] >= 'A' && s[0] <= 'z' && !(s[0] >= 'A' && s[0] <= 'Z'));
+  {
+    static uint8_t b[32];
+    assemblyline_t al = asm_create_instance(b, 32);
+    ASSUME(al != NULL);
+    unsigned long lay = IN(3);
+    ASSUME(lay <= 40);
+    char name[INSTRUCTION_CHAR_LEN];
+    for (int i = 0; i < INSTRUCTION_CHAR_LEN; i++) name[i] = (unsigned long)i < len ? s[i] : 0;
+    int key = str_to_instr_key(name, (operand_format)lay);
+    CHECK(key == INSTR_ERROR || key >= 3, "lookup result is an error or a table row");
+  }
 #elif defined(T_STRTOREG)
   ASSUME(len <= 5);
   unsigned v = str_to_reg(s);
